@@ -202,7 +202,9 @@ def run(module_path: str, cfg: str, env: dict | None = None, workers: int | str 
                     or "Finished in" in out and res.violated is None and p.returncode == 0)
         if res.violated is None and (p.returncode != 0 or not finished):
             # anything that is not a clean finish or a named violation is a machinery failure
-            tail = "\n".join(out.splitlines()[-40:])
+            ol = out.splitlines()
+            first = next((i for i, x in enumerate(ol) if x.startswith("Error") or "Exception" in x), max(0, len(ol) - 40))
+            tail = "\n".join(ol[first:first + 40])
             raise TLCFailure("TLC failed on %s (rc=%s):\n%s" % (module, p.returncode, tail))
         res.ok = res.violated is None
         if res.violated and not expect_violation:
